@@ -15,8 +15,29 @@ import Octo.Drv.FilesCommon
 namespace Octo.Drv.C23
 open Octo Octo.Codec Octo.Files Octo.Drv.Files
 
+/-! `pq <mask> <nrows> (6 values)×nrows`: a parquet file written by the harness with the repository's parquet-go and read back
+    through the real datasource, with the columns selected by `mask`. `reconstruct.go` is not modelled: the expected
+    records are the rows of the op line themselves (a differential test against what was written). -/
+def pqRows : Nat → List String → Option (List (List Value))
+  | 0, _ => some []
+  | n + 1, toks => do
+    let (vs, r) ← parseValues 6 toks
+    let rest ← pqRows n r
+    pure (vs :: rest)
+
+def pqExpected (toks : List String) : Option String :=
+  match toks with
+  | "pq" :: mask :: n :: rest => do
+    let rows ← pqRows (← n.toNat?) rest
+    let keep := mask.toList.map (· == '1')
+    let recs : List Msg := rows.map fun r =>
+      Msg.data { vals := ((r.zip keep).filter (·.2)).map (·.1), retr := false, et := none }
+    pure (if recs.isEmpty then "ok" else "ok " ++ encodeMsgs recs)
+  | _ => none
+
 def model (toks : List String) : String :=
   match toks with
+  | "pq" :: _ => (pqExpected toks).getD "bad-op"
   | "jsonq" :: _ => "sched"
   | _ => (modelFiles toks).getD "bad-op"
 
@@ -103,6 +124,11 @@ def judge (toks : List String) (out : List String) : String :=
     | "stdin" :: _ :: _ :: inner => inner
     | _ => toks
   match inner with
+  | "pq" :: _ =>
+    (match pqExpected inner with
+     | some want => if String.intercalate " " out == want then "ok"
+                    else s!"bad parquet-records-differ-from-the-rows-written"
+     | none => "bad unparsable-op")
   | "json" :: _seed :: n :: rest =>
     (match parseRows n.toNat! rest with
      | some (rows, _) => judgeJson false rows out
